@@ -22,6 +22,7 @@ import Rooc.Proofs.RatInst
 import Rooc.Proofs.BuilderHistLemmas
 import Rooc.Proofs.ComposeSolver
 import Rooc.Proofs.TextTwin
+import Rooc.Proofs.PipesLemmas
 import Rooc.Proofs.Compose
 import Rooc.Props.C03
 namespace Rooc.Props.C16
@@ -491,6 +492,62 @@ theorem builder_text_same_verdict {bm tm : Model (Ext K)} (h : TextTwin bm tm) (
       exact refSolve_feasibleAny_complete haB hcB (by rw [← h.optType]; exact hs) hfB
 
 end twin
+
+/-! ### 10. the staged pipe runner is function composition (`Rooc/Pipes.lean`, diffed on arbitrary pipe sequences) -/
+section pipes
+open Rooc.Pipes
+variable {D E : Type}
+
+/-- `runPipe_compose`: a successful run returns the start datum followed by every intermediate result — one per pipe — and
+its last element is the `?`-composition of the stages applied to the start datum. -/
+theorem runPipe_compose (pipes : List (D → Except E D)) (d : D) {rs : List D} (h : runPipe pipes d = .ok rs) :
+    rs.length = pipes.length + 1 ∧ rs.head? = some d ∧ ∃ hne : rs ≠ [], chain pipes d = .ok (rs.getLast hne) := by
+  rw [runPipe_eq_scan] at h
+  cases hs : scan pipes d with
+  | error x => obtain ⟨e, rs'⟩ := x; simp [hs] at h
+  | ok rs' =>
+    simp only [hs, Except.ok.injEq] at h
+    subst h
+    obtain ⟨h1, h2⟩ := scan_ok pipes d rs' hs
+    exact ⟨by simp [h1], rfl, by simp, h2⟩
+
+/-- a failing run: the error is the error of the composition, the results handed back are the start datum and the results
+of the pipes BEFORE the failing one (strictly fewer than the pipes), the last of them being the composition of those
+pipes — the datum the failing pipe was applied to. -/
+theorem runPipe_error (pipes : List (D → Except E D)) (d : D) {e : E} {rs : List D}
+    (h : runPipe pipes d = .error (e, rs)) :
+    chain pipes d = .error e ∧ rs.head? = some d ∧ rs.length ≤ pipes.length ∧
+    ∃ hne : rs ≠ [], chain (pipes.take (rs.length - 1)) d = .ok (rs.getLast hne) := by
+  rw [runPipe_eq_scan] at h
+  cases hs : scan pipes d with
+  | ok rs' => simp [hs] at h
+  | error x =>
+    obtain ⟨e', rs'⟩ := x
+    simp only [hs, Except.error.injEq, Prod.mk.injEq] at h
+    obtain ⟨rfl, rfl⟩ := h
+    obtain ⟨h1, h2, h3⟩ := scan_error pipes d e' rs' hs
+    exact ⟨h2, rfl, by simp; omega, by simp, by simpa using h3⟩
+
+/-- a built-in pipe answers `InvalidData { expected, got }` exactly on a tag mismatch (expected = the variant it reads,
+got = the variant it was handed); on the right variant it is its stage function, wrapped. -/
+theorem builtin_spec {P : Type} (k : PipeKind) (f : P → Option P) (t : DataTy) (p : P) :
+    (t ≠ k.input → builtin k f (t, p) = .error (.invalidData k.input t)) ∧
+    (t = k.input → builtin k f (t, p) = match k.output, f p with
+      | some o, some q => .ok (o, q)
+      | _, _ => .error (.stage k.errVariant)) := by
+  constructor
+  · intro h; simp [builtin, h]
+  · intro h; subst h; simp only [builtin, bne_self_eq_false, Bool.false_eq_true, if_false]
+    cases k.output <;> cases f p <;> rfl
+
+/-- the preset the doors use — `Compiler, PreModel, Model, LinearModel, AutoSolver` — is well typed: from a `String` it
+yields the six data `String, Parser, PreModel, Model, LinearModel, MILPSolution` when no stage function fails. -/
+example : runTags [.compiler, .preModel, .model, .linearModel, .autoSolver] .string none =
+    .ok [.string, .parser, .preModel, .model, .linearModel, .milpSolution] := by decide
+/-- a pipe in the wrong place: `ModelPipe` right after `CompilerPipe` is handed a `Parser`. -/
+example : runTags [.compiler, .model] .string none = .error (.invalidData .preModel .parser, [.string, .parser]) := by decide
+
+end pipes
 
 /-! ### Non-vacuity: a concrete builder model at `K = ℚ`
 
